@@ -291,24 +291,53 @@ def _enclosing(n, kinds):
 
 
 def _atoms(e, vary):
-    """what an expression reads of the varying names: (name,) for the
-    whole value, (name, 'key') for `name['key']` / `name.key`"""
+    """what an expression reads of the varying names, as access paths:
+    (name,) for the whole value, (name, path) for the longest chain of
+    subscripts / attributes read from it (`item['path']`,
+    `cell[level]['assignment']`, `spec.layer`)"""
     out = set()
-    skip = set()
+    inner = set()
+    chains = []
     for x in ast.walk(e):
-        if isinstance(x, ast.Subscript) and isinstance(x.value, ast.Name) \
-                and x.value.id in vary and isinstance(
-                    x.slice, ast.Constant):
-            out.add((x.value.id, repr(x.slice.value)))
-            skip.add(id(x.value))
-        elif isinstance(x, ast.Attribute) and isinstance(
-                x.value, ast.Name) and x.value.id in vary:
-            out.add((x.value.id, '.' + x.attr))
-            skip.add(id(x.value))
+        if isinstance(x, (ast.Subscript, ast.Attribute)):
+            parts = []
+            b = x
+            while isinstance(b, (ast.Subscript, ast.Attribute)):
+                if isinstance(b, ast.Subscript):
+                    parts.append('[' + unparse(b.slice) + ']')
+                else:
+                    parts.append('.' + b.attr)
+                b = b.value
+            if isinstance(b, ast.Name) and b.id in vary:
+                chains.append((x, b, ''.join(reversed(parts))))
+    # keep maximal chains only
+    for (x, b, path) in chains:
+        sub = x.value
+        while isinstance(sub, (ast.Subscript, ast.Attribute)):
+            inner.add(id(sub))
+            sub = sub.value
+        inner.add(id(b))
+    for (x, b, path) in chains:
+        if id(x) in inner:
+            continue
+        out.add((b.id, path))
     for x in ast.walk(e):
-        if isinstance(x, ast.Name) and x.id in vary and id(x) not in skip:
+        if isinstance(x, ast.Name) and x.id in vary and id(x) not in inner:
             out.add((x.id,))
     return out
+
+
+def _covered(a, key_atoms):
+    """the part of the input `a` is determined by the key: the key holds
+    the whole name, or a path of which `a`'s path is an extension"""
+    if (a[0],) in key_atoms or a in key_atoms:
+        return True
+    if len(a) == 1:
+        return False
+    for k in key_atoms:
+        if k[0] == a[0] and len(k) > 1 and a[1].startswith(k[1]):
+            return True
+    return False
 
 
 def _local_values(fi, name):
@@ -392,6 +421,32 @@ def check_memo_keys(ctx, fi, rule='R-MEMO/key-complete'):
                     and unparse(t.left) == unparse(tg.slice):
                 memo = True
         if not memo:
+            # early-exit form: `if k in cache: <use cache[k]>; continue`
+            # (or return) earlier in the same block, the store further
+            # down on the path that computed the value
+            for other in ast.walk(fi.node):
+                if not (isinstance(other, ast.If) and isinstance(
+                        other.test, ast.Compare) and len(
+                            other.test.ops) == 1 and isinstance(
+                                other.test.ops[0], ast.In)):
+                    continue
+                c = other.test
+                if unparse(c.comparators[0]) != unparse(tg.value) \
+                        or unparse(c.left) != unparse(tg.slice):
+                    continue
+                if any(st is x for x in ast.walk(other)):
+                    continue
+                if not (other.body and isinstance(
+                        other.body[-1], (ast.Continue, ast.Return))):
+                    continue
+                reads = any(isinstance(x, ast.Subscript) and unparse(
+                    x.value) == unparse(tg.value) and unparse(
+                        x.slice) == unparse(tg.slice)
+                    for b_ in other.body for x in ast.walk(b_))
+                if reads and getattr(other, 'lineno', 0) < getattr(
+                        st, 'lineno', 0):
+                    memo = True
+        if not memo:
             continue
         # "first one wins, a different later one is an error": where the
         # key is already present the stored value is compared with the
@@ -439,12 +494,10 @@ def check_memo_keys(ctx, fi, rule='R-MEMO/key-complete'):
                     and x.id not in creations:
                 for v in _local_values(fi, x.id):
                     used |= _atoms(v, vary)
-        missing = {a for a in used
-                   if a not in key_atoms and (a[0],) not in key_atoms}
+        missing = {a for a in used if not _covered(a, key_atoms)}
         n += 1
         ctx.touch(fi)
-        shown = sorted(a[0] + (f'[{a[1]}]' if len(a) > 1 and not a[
-            1].startswith('.') else (a[1] if len(a) > 1 else ''))
+        shown = sorted(a[0] + (a[1] if len(a) > 1 else '')
                        for a in missing)
         ctx.ob(rule, f'{fi.qual}:{_key_role(st)}', fi.loc(st), not missing,
                'the cached value depends only on its key' if not missing
